@@ -221,6 +221,61 @@ def main():
             break
     else:
         res["determinism"].append(dict(name="parameter-list commands rebuilt", same=True, n=len(cases)))
+    # (e) decoded results are isolated: decoding a response never changes what an earlier decode returned
+    import spec_resp
+    from resp_impl import parsers
+
+    def plain(x):
+        if isinstance(x, dict):
+            return {k: plain(v) for k, v in x.items()}
+        if isinstance(x, (list, tuple)):
+            return [plain(v) for v in x]
+        if isinstance(x, (bytes, bytearray)):
+            return bytes(x)
+        return x
+    P = parsers()
+    rcases = spec_resp.cases(random.Random(inp.get("seed", 0)), inp.get("n_decode", 3))
+    kept, bad_dec = [], None
+    for i, c in enumerate(rcases):
+        try:
+            d = P[c["call"]].unmarshall_datain(bytearray(c["data"]), **c["args"])
+        except Exception:  # noqa
+            continue
+        for j, fmt, obj, snap in kept:
+            if obj is d and isinstance(d, (dict, list)):
+                bad_dec = dict(kind="decode-alias", victim=j, after=i, what="decoding %s returned the very object an earlier decode of %s returned" % (c["fmt"], fmt))
+                break
+            if plain(obj) != snap:
+                bad_dec = dict(kind="decode-isolation", victim=j, after=i,
+                               what="the result of decoding %s (case %d) changed when %s (case %d) was decoded afterwards" % (fmt, j, c["fmt"], i))
+                break
+        if bad_dec:
+            break
+        kept.append((i, c["fmt"], d, plain(d)))
+    res["decode"] = dict(n=len(kept), bad=bad_dec)
+    # (f) first use: two threads using one command class for the first time in the process (modules imported afresh for every schedule)
+    res["cold"] = []
+    for pair in inp.get("cold_pairs", []):
+        A, B = pair["a"], pair["b"]
+
+        def purge():
+            for k in [k for k in sys.modules if k == "pyscsi" or k.startswith("pyscsi.")]:
+                del sys.modules[k]
+        purge()
+        want = [alone(A), alone(B)]
+        purge()
+        na = count_lines(A)
+        bad, tried = None, 0
+        stride = max(1, pair.get("stride", 1))
+        for i in range(0, na + 1, stride):
+            purge()
+            tried += 1
+            got = threaded(A, B, i, 10 ** 6)           # A runs i lines, B runs to completion, A resumes
+            if got != want:
+                bad = dict(kind="cold-schedule", a_lines=i, alone=want, interleaved=got)
+                break
+        purge()
+        res["cold"].append(dict(lines=na, schedules=tried, bad=bad))
     print(json.dumps(res))
 
 
